@@ -1,4 +1,6 @@
 import HvsrVerif.Drv.Loop
 import HvsrVerif.Generated.PyDrv
-/-! exe `drv_py`: evaluates the definitions that tools/py2lean.py translated from the Python source (at Float) -/
-def main : IO Unit := HV.Drv.mainWith HV.Drv.opsPy
+import HvsrVerif.Generated.PyVecDrv
+/-! exe `drv_py`: evaluates the definitions that tools/py2lean.py (scalar kernels) and tools/py2lean_vec.py (array functions)
+translated from the Python source (at Float) -/
+def main : IO Unit := HV.Drv.mainWith (fun op => (HV.Drv.opsPy op).orElse (fun _ => HV.Drv.opsPyVec op))
